@@ -143,13 +143,13 @@ func main() {
 		add(2, D, "-nfa", []bool{false, true}, []int{1, 2}, 0, adv(1, 0))
 		add(2, []time.Duration{0, ms, 5 * ms}, "-nf", []bool{false, true}, []int{1}, 0, adv(1, 1))
 		add(3, []time.Duration{0, ms, 5 * ms}, "-nf", []bool{false}, []int{2}, 0, adv(1, 0))
-		add(2, []time.Duration{ms, 5 * ms}, "-f", []bool{true}, []int{1}, 2 * ms, adv(1, 1))
+		add(2, []time.Duration{ms, 5 * ms}, "-f", []bool{true}, []int{1}, 2*ms, adv(1, 1))
 	} else {
 		add(1, D, "-nfat", []bool{false, true}, []int{1, 2}, 0, adv(3, 2))
 		add(2, D, "-nfat", []bool{false, true}, []int{1, 2}, 0, adv(2, 2))
 		add(3, D, "-nfa", []bool{false, true}, []int{1, 2}, 0, adv(1, 1))
 		add(4, []time.Duration{0, ms, 5 * ms}, "-nf", []bool{false}, []int{2}, 0, adv(1, 0))
-		add(2, []time.Duration{0, ms, 5 * ms}, "-nf", []bool{true}, []int{1, 2}, 2 * ms, adv(2, 1))
+		add(2, []time.Duration{0, ms, 5 * ms}, "-nf", []bool{true}, []int{1, 2}, 2*ms, adv(2, 1))
 	}
 	sort.SliceStable(jobs, func(a, b int) bool { return jobs[a].Cfg.P+jobs[a].Cfg.K > jobs[b].Cfg.P+jobs[b].Cfg.K })
 	budget := 4 * time.Minute
